@@ -150,9 +150,112 @@ func tmHistory(t *testing.T, r *Recorder, cfg tmCfg, evs []tmEvent, class string
 	r.Case(fmt.Sprintf("%+v|%d|%v", cfg, len(evs), evs[:min(len(evs), 6)]), resent > 0 && len(evs) > 3, class)
 }
 
+// tmConnTrace: the timeout manager inside a real connection. A client/server pair runs in a bubble
+// (keepalive on, a few messages with pauses long enough for pings, one data-phase packet of one
+// direction lost once); afterwards every packet an endpoint emitted and every packet handed to its
+// handshake or receive loop is replayed, with its virtual time stamp, through the timeout-manager
+// model (tmq.* lines): the state the model ends in must be the state the connection's own manager
+// ended in (tm.show). Whether an emission was a retransmission is told from the event log (a DATA
+// packet whose sequence number is not the next new one; a second SYN), not taken from the code.
+// Oracle on the real run: the manager counted no more round-trip samples than there were
+// acknowledgements of packets that had not been retransmitted.
+func tmConnTrace(t *testing.T, r *Recorder, n uint8, freq, dir, k int) {
+	const lat = 150 * time.Millisecond
+	faults := make([]Fault, k+1)
+	faults[k] = Fault{Drop: true}
+	sc := &GbnScenario{Name: fmt.Sprintf("tm-conn-trace:n=%d:freq=%d:lost=%d/%d", n, freq, dir, k), N: n, Latency: lat,
+		PingNs: int64(4 * time.Second), PongNs: int64(6 * time.Second), HsTimeout: 2 * time.Second, TmFreq: freq,
+		Msgs: [2][]int{{3, 5, 2, 9}, {4, 1}}, SendGap: [2]time.Duration{9 * time.Second, 13 * time.Second}, RunFor: 50 * time.Second}
+	sc.Faults[dir] = cleanHS(dir, faults)
+	var final [2]string
+	var counter [2]int
+	res := RunGbn(t, sc, func(sim *Sim, res *GbnResult, phase string) {
+		if phase == "before-close" {
+			for ep := 0; ep < 2; ep++ {
+				final[ep] = tmShow(res.Conns[ep].VTimeouts())
+				counter[ep] = res.Conns[ep].VTimeouts().VState().ResponseCounter
+			}
+		}
+	})
+	r.Case(sc.Name, true, "conn-trace")
+	if res.Panic != "" || res.HsErr[0] != "" || res.HsErr[1] != "" || final[0] == "" {
+		if res.Panic != "" {
+			r.Violate("C20/conn-run-failed", res.Panic, sc)
+		}
+		return
+	}
+	for ep := 0; ep < 2; ep++ {
+		ops := []string{fmt.Sprintf("tmq.new 0 %d %d 5 %d %d", int64(time.Second), int64(2*time.Second), freq, math.Float32bits(0.5))}
+		nextSeq := uint8(0)
+		syns := 0
+		clean := map[uint8]bool{}
+		cleanAcks := 0
+		for _, e := range res.Events {
+			if e.EP != ep || e.At > res.Duration {
+				continue
+			}
+			if e.Kind != "emit" && !(e.Kind == "deliver" && (e.By == "hs" || e.By == "recvloop")) {
+				continue
+			}
+			m, err := gbn.Deserialize(e.Pkt)
+			if err != nil {
+				continue
+			}
+			kind, seq := "fin", uint8(0)
+			switch p := m.(type) {
+			case *gbn.PacketData:
+				kind, seq = "data", p.Seq
+			case *gbn.PacketACK:
+				kind, seq = "ack", p.Seq
+			case *gbn.PacketNACK:
+				kind, seq = "nack", p.Seq
+			case *gbn.PacketSYN:
+				kind = "syn"
+			case *gbn.PacketSYNACK:
+				kind = "synack"
+			}
+			if e.Kind == "emit" {
+				resent := false
+				switch kind {
+				case "data":
+					if seq == nextSeq {
+						nextSeq = uint8((int(nextSeq) + 1) % (int(n) + 1))
+					} else {
+						resent = true
+					}
+					clean[seq] = !resent
+				case "syn":
+					resent = syns > 0
+					syns++
+				}
+				ops = append(ops, fmt.Sprintf("tmq.sent %s %d %s %d", kind, seq, b01(resent), int64(e.At)))
+			} else {
+				if kind == "ack" && clean[seq] {
+					cleanAcks++
+					clean[seq] = false
+				}
+				ops = append(ops, fmt.Sprintf("tmq.recv %s %d %d", kind, seq, int64(e.At)))
+			}
+		}
+		if freq > 500 && counter[ep] > cleanAcks {
+			r.Violate("C20/sample-from-retransmitted-packet", fmt.Sprintf("endpoint %d counted %d round-trip samples, but only %d acknowledgements were for packets that had not been retransmitted (window %d, keepalive 4 s / 6 s, packet %d of direction %d lost once)",
+				ep, counter[ep], cleanAcks, n, k, dir), sc)
+		}
+		r.EmitOKBlock(ops)
+		r.Emit("tm.show", final[ep])
+	}
+}
+
 func TestC20(t *testing.T) {
 	r := NewRecorder(t, "C20")
 	defer r.Close(t)
+	for _, freq := range []int{1000, 1, 3} {
+		for dir := 0; dir < 2; dir++ {
+			for k := 0; k < pick(5, 9); k++ {
+				tmConnTrace(t, r, []uint8{5, 1, 20}[k%3], freq, dir, k)
+			}
+		}
+	}
 	rng := newRand(20)
 	gaps := []time.Duration{0, 1, time.Millisecond, 17 * time.Millisecond, 300 * time.Millisecond, time.Second,
 		1500 * time.Millisecond, 7 * time.Second, 3 * time.Minute}
